@@ -29,6 +29,20 @@ type machine struct {
 	ent2Gone map[int]bool // the peer announced its entity [2] as removed
 }
 
+// holdsProtectedElement: does the list hold an element whose changeability flag is not true?
+func holdsProtectedElement(f *gen.Func, items []reflect.Value) bool {
+	if f.WriteCheck == "" {
+		return false
+	}
+	for _, it := range items {
+		fl := it.FieldByName(f.WriteCheck)
+		if fl.IsNil() || !fl.Elem().Bool() {
+			return true
+		}
+	}
+	return false
+}
+
 func (m *machine) logf(format string, a ...any) { m.hist = append(m.hist, fmt.Sprintf(format, a...)) }
 func (m *machine) history() string              { return "\n history:\n  " + strings.Join(m.hist, "\n  ") }
 
@@ -45,7 +59,7 @@ func (m *machine) live(t *rapid.T, label string) int {
 	return idx[rapid.IntRange(0, len(idx)-1).Draw(t, label)]
 }
 
-// stripFlags removes the changeability flag from written items (C04 owns flag handling).
+// stripFlags removes the changeability flag from the items of restricted writes (C04 owns flag handling).
 func stripFlags(f *gen.Func, u *refmodel.Update) {
 	if f.WriteCheck == "" {
 		return
@@ -53,6 +67,12 @@ func stripFlags(f *gen.Func, u *refmodel.Update) {
 	for _, it := range u.Items {
 		fv := it.FieldByName(f.WriteCheck)
 		fv.Set(reflect.Zero(fv.Type()))
+		if !u.HasFilter() {
+			// a full write states the elements as changeable, so that the lists of this check stay
+			// writable (a list with protected elements may refuse writes for C04's reasons)
+			yes := true
+			fv.Set(reflect.ValueOf(&yes))
+		}
 	}
 }
 
@@ -188,10 +208,12 @@ func (m *machine) write(t *rapid.T, pi int, client regs.Ref, si int, f *gen.Func
 	if before != after || notifies != 0 || dataEvents != 0 {
 		world.Fail(t, "C03/rejected-write-effect", "an authorised write answered with an error had effects (changed=%v notifies=%d events=%d)%s", before != after, notifies, dataEvents, detail())
 	}
-	if !u.HasFilter() {
-		world.Fail(t, "C03/authorised-full-write-rejected", "an authorised full write of a writable function was rejected%s", detail())
+	// (a full write may be refused for the sake of an element it is not allowed to change - C04's
+	// subject; without such an element in the data nothing stands against it)
+	if !u.HasFilter() && !holdsProtectedElement(f, state) {
+		world.Fail(t, "C03/authorised-full-write-rejected", "an authorised full write of a writable function was rejected although the data holds no write-protected element%s", detail())
 	}
-	if expect == "accepted" && (shape == listgen.Full) {
+	if expect == "accepted" && (shape == listgen.Full) && !holdsProtectedElement(f, state) {
 		world.Fail(t, "C03/immediacy/not-accepted-after-bind", "the write directly after a granted binding was rejected%s", detail())
 	}
 	m.rejected[pi]++
